@@ -1,4 +1,4 @@
-(** Model of the nonce cache of internal/ingress/hmac.go (nonceCache.admit, nonceCache.seenOnceLocked,
+(** Model of the nonce cache of internal/ingress/hmac.go (nonceCache.cache_admit, nonceCache.seenOnceLocked,
     nonceCache.extend, HMACAuth.InheritNonces).  Time = [Z] nanoseconds since the epoch; a nonce is a byte list.
     The Go map nonce -> expiry is an association list with unique keys (invariant [NoDup (map fst c)],
     kept by every operation; order is not observable). *)
@@ -42,9 +42,9 @@ Definition seen_once_locked (nonce : bytes) (expires_at now : Z) (c : cache) : b
       end
   end.
 
-(** nonceCache.admit(nonce, signedAt, tolerance): ONE critical section = one atomic step:
+(** nonceCache.cache_admit(nonce, signedAt, tolerance): ONE critical section = one atomic step:
     read the clock ([now] is that reading), test the tolerance, then seenOnceLocked. *)
-Definition admit (nonce : bytes) (signed_at tol now : Z) (c : cache) : bool * cache :=
+Definition cache_admit (nonce : bytes) (signed_at tol now : Z) (c : cache) : bool * cache :=
   let d := now - signed_at in
   if (0 <? tol) && ((d <? - tol) || (tol <? d)) then (false, c)
   else seen_once_locked nonce (signed_at + tol) now c.
